@@ -189,7 +189,7 @@ def check_job_loop(ctx, f, s_p, ql):
     if len(rems) == 1:
         rl = enclosing_for(rems[0], f.node)
         if rl is not None and rl is not jl and isinstance(rl.iter, ast.Name) and isinstance(rl.target, ast.Name) and norm.is_name(rems[0].args[0], rl.target.id) \
-                and enclosing_for(rl, f.node) is ql and rl.lineno > jl.lineno:
+                and enclosing_for(rl, f.node) is ql and before(f, jl, rl):
             D = rl.iter.id
             okrem = True
     ctx.ob(3, "K1", "jobs leave a queue only through the deferred removal of the jobs handled in this round (after the scan of that queue)", okrem, f, rems[0] if rems else jl,
@@ -228,7 +228,7 @@ def check_job_loop(ctx, f, s_p, ql):
         if isinstance(lab, tuple) and lab[0] == "cond" and depl in norm.atoms_true(lab[1]):
             return False
         return True
-    exits = {hid, g.exit.id} | {g.node_of(n).id for n in ast.walk(ql) if isinstance(n, ast.For) and n is not jl and n.lineno > jl.lineno}
+    exits = {hid, g.exit.id} | {g.node_of(n).id for n in ast.walk(ql) if isinstance(n, ast.For) and n is not jl and before(f, jl, n)}
     skip = g.path_avoiding(hid, exits, {mid}, edge_ok=edge_ok2)
     ctx.ob(4, "K2", "a ready job is left waiting only when every pool is depleted: the only way past a job without handling it is the break taken when no pool "
            "with free CPU and RAM exists (pool id -1)", skip is None, f, m, construct="stay queued only if pools depleted",
